@@ -10,6 +10,8 @@ layer (JSON list) — what one adapter contributes:
     ["client", name, cid, secret]      Authorization: Basic b64(cid:secret)
     ["token", tok]                     Authorization: Bearer tok
     ["resp", tag]                      response post-processor  v -> ["resp", tag, v]
+    ["const", value]                   response post-processor whose legitimate output is ``value`` (None, 0,
+                                       [], "" ...) whatever it is given — e.g. one that unwraps {"result": null}
     ["hdr", name, value]               adds one fixed header (order independent)
 
 Family — the connections and method callers derived so far from one root:
@@ -21,10 +23,11 @@ first, then the parent's …).  The statement then fixes everything that is comp
 
 * path: every prefix of the chain is put in front of the path, the called connection's first, inner
   connections' afterwards — so **prefixes of inner connections end up outermost**;
-* url = address + path (+ "?" + url-encoded params).  The slash at a joint is not fixed by the
-  statement (the implementation strips/inserts one); ``norm_path`` therefore collapses runs of "/" and
-  guarantees a leading one on both sides of the comparison, and the query is compared as a multiset of
-  decoded pairs;
+* url = address + path (+ "?" + url-encoded params).  At a joint (address|path, prefix|path) two
+  readings exist — literal concatenation and joining with a single slash — and the implementation mixes
+  them; both are accepted, nothing else: where the two sides bring k >= 1 slashes together, between 1 and
+  k slashes must appear; where they bring none, address|path gets exactly one, prefix|path none
+  (``joint``/``url_candidates``).  The query is compared as decoded pairs per name;
 * exactly one Authorization header iff the chain has an authenticating layer, decoding to its credentials;
 * body by type: None -> no body, bytes unchanged, str -> utf-8, anything else -> JSON text in utf-8
   (compared after decoding); Content-Type of a JSON body, when the caller gave none, must name json;
@@ -127,6 +130,30 @@ def norm_path(p):
     return p
 
 
+def _lead(s):
+    return len(s) - len(s.lstrip("/"))
+
+
+def _trail(s):
+    return len(s) - len(s.rstrip("/"))
+
+
+def joint(left, right, when_none):
+    """All admissible spellings of ``left`` joined with ``right`` (see the module docstring)."""
+    k = _trail(left) + _lead(right)
+    counts = [when_none] if k == 0 else range(1, k + 1)
+    return {left.rstrip("/") + "/" * j + right.lstrip("/") for j in counts}
+
+
+def url_candidates(address, chain, path):
+    """Admissible urls (without query) of a request for ``path`` through ``chain`` to ``address``."""
+    paths = {path}
+    for layer in chain:                      # called connection first ... innermost last => outermost
+        if layer[0] == "prefix":
+            paths = {c for p in paths for c in joint(layer[1], p, 0)}
+    return {u for p in paths for u in joint(address, p, 1)}
+
+
 def expected_path(chain, path):
     for layer in chain:                      # called connection first ... innermost last => outermost
         if layer[0] == "prefix":
@@ -202,6 +229,8 @@ def expected_response(chain, value):
     for layer in reversed(chain):            # innermost first, called connection's processors last
         if layer[0] == "resp":
             value = ["resp", layer[1], value]
+        elif layer[0] == "const":
+            value = json.loads(json.dumps(layer[1]))
     return value
 
 
@@ -216,12 +245,13 @@ def compare_request(family, chain, verb, path, params, data, headers, obs):
         out.append(("url", "request does not go to the connection's address", url, addr + "..."))
     else:
         rest = url[len(addr):]
-        ppart, _, query = rest.partition("?")
-        want_path = norm_path(expected_path(chain, path))
-        if not ppart.startswith("/"):
-            out.append(("url", "address and path are glued together without a slash", url, addr + want_path))
-        elif norm_path(ppart) != want_path:
-            out.append(("url", "path (with prefixes) differs", norm_path(ppart), want_path))
+        upart, _, query = url.partition("?")
+        cands = url_candidates(family.address, chain, path)
+        if upart not in cands:
+            glued = not rest.startswith("/")
+            out.append(("url", "address and path are glued together without a slash" if glued else
+                        "url is neither address + path (with prefixes) nor their single-slash joining",
+                        upart, sorted(cands)[:4]))
         got_pairs = parse_qsl(query, keep_blank_values=True, strict_parsing=False) if query else []
         if group_pairs(got_pairs) != group_pairs(expected_pairs(params)):
             out.append(("query", "url-encoded params differ (every pair must arrive, values of one name in order)",
@@ -314,6 +344,12 @@ def selftest():
     a = g.wrap(0, [["prefix", "/in"], ["resp", "in"]], "wrap-list")
     b = g.wrap(a, [["prefix", "/out"], ["resp", "out"]], "wrap-list")
     assert expected_path(g.chain(b), "/x") == "/in/out/x"
+    assert url_candidates("http://h", g.chain(b), "/x") == {"http://h/in/out/x"}
+    assert url_candidates("http://h/", [], "r/s") == {"http://h/r/s"}           # never http://h//r/s
+    assert url_candidates("http://h/", [], "/r") == {"http://h/r", "http://h//r"}
+    assert url_candidates("http://h", [["prefix", "v1/"]], "/r") == {"http://h/v1/r", "http://h/v1//r"}
+    assert url_candidates("http://h", [["prefix", "/p"]], "r") == {"http://h/pr"} and \
+        url_candidates("http://h", [], "") == {"http://h/"}
     assert expected_response(g.chain(b), 1) == ["resp", "out", ["resp", "in", 1]]
     assert group_pairs(expected_pairs([("tag", "red"), ("tag", "blue"), ("limit", 5)])) == \
         {"tag": ["red", "blue"], "limit": ["5"]} != group_pairs(expected_pairs({"tag": "blue", "limit": 5}))
